@@ -22,7 +22,43 @@ def _read_out(cout, n):
         return None, 'harness printed %d lines for %d cases' % (len(res), n)
     return res, ''
 
-def daemon_test(name, test_filter, cases, release=False, timeout=1500, extra_env=None):
+# A case on which the implementation does not return (harness/common/val.rs watchdog: the
+# harness writes <out>.hang with the case index and exits 97; every finished case has been
+# flushed) is observed as [-2] = HANG; the cases after it are run in a fresh process with a
+# short deadline.  After MAX_HANGS wedged cases the remaining ones are not run: [-3] = SKIPPED
+# (no verdict, not counted as validated).
+MAX_HANGS = 12
+HANG = [-2]
+SKIPPED = [-3]
+SHORT_DEADLINE_MS = '8000'
+
+def _hang_index(cout, n):
+    hp = cout + '.hang'
+    if not os.path.exists(hp):
+        return None
+    try:
+        k = int(open(hp).read().strip())
+    except ValueError:
+        return None
+    os.remove(hp)
+    return k if 0 <= k < n else None
+
+def _around_hang(h, cout, cases, rerun, depth):
+    done = [val.from_text(l) for l in open(cout) if l.strip()] if os.path.exists(cout) else []
+    if len(done) < h:
+        return None, 'harness wedged on case %d but only %d results were written' % (h, len(done))
+    done = done[:h]
+    rest = cases[h + 1:]
+    if not rest:
+        return done + [list(HANG)], ''
+    if depth + 1 >= MAX_HANGS:
+        return done + [list(HANG)] + [list(SKIPPED) for _ in rest], ''
+    b, err = rerun(rest)
+    if b is None:
+        return None, err
+    return done + [list(HANG)] + b, ''
+
+def daemon_test(name, test_filter, cases, release=False, timeout=1500, extra_env=None, _depth=0):
     """Runs one #[test] of the hook modules compiled into the daemon crate
     (cfg(all(test, osrg_rustybgp_verif))) from /repo's current working tree."""
     cin, cout = _write_cases(name, cases)
@@ -36,6 +72,9 @@ def daemon_test(name, test_filter, cases, release=False, timeout=1500, extra_env
         '--release' if release else '', test_filter)
     rc, out, dt = sh(cmd, cwd=REPO, env=env, timeout=timeout)
     if rc != 0:
+        h = _hang_index(cout, len(cases))
+        if h is not None and _depth < MAX_HANGS:
+            return _around_hang(h, cout, cases, lambda cs: daemon_test(name, test_filter, cs, release, timeout, dict(extra_env or {}, VERIF_CASE_DEADLINE_MS=SHORT_DEADLINE_MS), _depth + 1), _depth)
         return None, out[-4000:]
     return _read_out(cout, len(cases))
 
@@ -49,7 +88,7 @@ def render_manifest(cdir):
         if not os.path.exists(out) or open(out).read() != new:
             open(out, 'w').write(new)
 
-def crate_bin(name, crate, args, cases, release=False, timeout=1500, extra_env=None):
+def crate_bin(name, crate, args, cases, release=False, timeout=1500, extra_env=None, _depth=0):
     """Runs a harness crate under /verif/harness/<crate> (path deps on /repo crates)."""
     cin, cout = _write_cases(name, cases)
     cdir = os.path.join(VERIF, 'harness', crate)
@@ -68,5 +107,8 @@ def crate_bin(name, crate, args, cases, release=False, timeout=1500, extra_env=N
         '--release' if release else '', os.path.join(cdir, 'Cargo.toml'), args)
     rc, out, dt = sh(cmd, cwd=cdir, env=env, timeout=timeout)
     if rc != 0:
+        h = _hang_index(cout, len(cases))
+        if h is not None and _depth < MAX_HANGS:
+            return _around_hang(h, cout, cases, lambda cs: crate_bin(name, crate, args, cs, release, timeout, dict(extra_env or {}, VERIF_CASE_DEADLINE_MS=SHORT_DEADLINE_MS), _depth + 1), _depth)
         return None, out[-4000:]
     return _read_out(cout, len(cases))
